@@ -19,3 +19,5 @@ import Bp7.Props.C19More
 #print axioms Bp7.C19.reject_canon_missing_item
 #print axioms Bp7.C19.reject_canon_crc_uint
 #print axioms Bp7.C19.readEid_uint
+#print axioms Bp7.C19.reject_primary_dst_string
+#print axioms Bp7.C19.reject_prevnode_text
